@@ -55,7 +55,7 @@ Print Assumptions c06_spread_sound.
 Theorem c06_allocate_cpuset : forall o st rq numa s,
   NoDup (map cid (o_topo o)) ->
   allocate_cpuset o st rq numa = Some s ->
-  NoDup s /\ incl s (avail_of o st)
+  NoDup s /\ incl s (avail_of o st rq)
   /\ lenZ s = Z.max 0 (r_n rq)
   /\ (r_required rq = true -> satisfied_policy (r_bind rq) (o_topo o) s = true).
 Proof. exact allocate_cpuset_spec. Qed.
@@ -151,8 +151,8 @@ Print Assumptions c06_take_model_passes.
 Example c06_ex_opts : wf_opts (mkO overshoot_topo 1 [] true [(0, (8000, 64)); (1, (8000, 64)); (2, (8000, 64))]).
 Proof. exact ex_opts_wf. Qed.
 Example c06_ex_hist :
-  Forall op_sched [OAlloc (mkR 1 4 true 1 false 0 (Some [0; 1]) 4000 8); ORelease 1;
-                   OAlloc (mkR 2 2 true 2 true 1 None 2000 0)].
+  Forall op_sched [OAlloc (mkR 1 4 true 1 false 0 (Some [0; 1]) 4000 8 [] []); ORelease 1;
+                   OAlloc (mkR 2 2 true 2 true 1 None 2000 0 [] [])].
 Proof. exact ex_hist_sched. Qed.
 Example c06_ex_uniform : uniform_topo overshoot_topo = true /\ wf_topo overshoot_topo = true.
 Proof. exact ex_uniform. Qed.
